@@ -80,6 +80,92 @@ theorem eqWs_refl : ∀ (a : List WAcc), eqWs a a = true
   | a :: r => by simp [eqWs, eqW_refl a, eqWs_refl r]
 end
 
+theorem eqArgTy_eq : ∀ (a b : ArgTy), eqArgTy a b = true → a = b
+  | .ctrl k, b, h => by cases b <;> simp [eqArgTy] at h; rw [h]
+  | .scalar, b, h => by cases b <;> simp [eqArgTy] at h; rfl
+  | .tensor s w, b, h => by
+    cases b <;> simp [eqArgTy] at h
+    rw [eqEs_eq _ _ h.1, h.2]
+
+theorem eqFnArgs_eq : ∀ (a b : List FnArg), eqFnArgs a b = true → a = b
+  | [], b, h => by cases b <;> simp [eqFnArgs] at h; rfl
+  | ⟨x, t⟩ :: r, b, h => by
+    cases b with
+    | nil => simp [eqFnArgs] at h
+    | cons c s =>
+      obtain ⟨y, u⟩ := c
+      simp only [eqFnArgs, Bool.and_eq_true, beq_iff_eq] at h
+      rw [h.1.1, eqArgTy_eq _ _ h.1.2, eqFnArgs_eq _ _ h.2]
+
+mutual
+theorem eqS_eq : ∀ (a b : Stmt), eqS a b = true → a = b
+  | .assign x i r, b, h => by
+    cases b <;> simp [eqS] at h
+    rw [h.1.1, eqEs_eq _ _ h.1.2, eqE_eq _ _ h.2]
+  | .reduce x i r, b, h => by
+    cases b <;> simp [eqS] at h
+    rw [h.1.1, eqEs_eq _ _ h.1.2, eqE_eq _ _ h.2]
+  | .writecfg c f r d, b, h => by
+    cases b <;> simp [eqS] at h
+    rw [h.1.1.1, h.1.1.2, eqE_eq _ _ h.1.2, h.2]
+  | .pass, b, h => by cases b <;> simp [eqS] at h; rfl
+  | .ite c t e, b, h => by
+    cases b <;> simp [eqS] at h
+    rw [eqE_eq _ _ h.1.1, eqSs_eq _ _ h.1.2, eqSs_eq _ _ h.2]
+  | .loop i lo hi bd p, b, h => by
+    cases b <;> simp [eqS] at h
+    rw [h.1.1.1.1, eqE_eq _ _ h.1.1.1.2, eqE_eq _ _ h.1.1.2, eqSs_eq _ _ h.1.2, h.2]
+  | .alloc x sh, b, h => by
+    cases b <;> simp [eqS] at h
+    rw [h.1, eqEs_eq _ _ h.2]
+  | .free x, b, h => by
+    cases b <;> simp [eqS] at h
+    rw [h]
+  | .call f a, b, h => by
+    cases b <;> simp [eqS] at h
+    rw [eqP_eq _ _ h.1, eqEs_eq _ _ h.2]
+  | .window x r, b, h => by
+    cases b <;> simp [eqS] at h
+    rw [h.1, eqE_eq _ _ h.2]
+theorem eqSs_eq : ∀ (a b : List Stmt), eqSs a b = true → a = b
+  | [], b, h => by cases b <;> simp [eqSs] at h; rfl
+  | a :: r, b, h => by
+    cases b <;> simp [eqSs] at h
+    rw [eqS_eq _ _ h.1, eqSs_eq _ _ h.2]
+theorem eqP_eq : ∀ (a b : Proc), eqP a b = true → a = b
+  | .mk n a p bd, .mk n' a' p' bd', h => by
+    simp only [eqP, Bool.and_eq_true, beq_iff_eq] at h
+    rw [h.1.1.1, eqFnArgs_eq _ _ h.1.1.2, eqEs_eq _ _ h.1.2, eqSs_eq _ _ h.2]
+end
+
+theorem eqArgTy_refl : ∀ (a : ArgTy), eqArgTy a a = true
+  | .ctrl k => by simp [eqArgTy]
+  | .scalar => by simp [eqArgTy]
+  | .tensor s w => by simp [eqArgTy, eqEs_refl]
+
+theorem eqFnArgs_refl : ∀ (a : List FnArg), eqFnArgs a a = true
+  | [] => rfl
+  | ⟨x, t⟩ :: r => by simp [eqFnArgs, eqArgTy_refl, eqFnArgs_refl r]
+
+mutual
+theorem eqS_refl : ∀ (a : Stmt), eqS a a = true
+  | .assign x i r => by simp [eqS, eqEs_refl, eqE_refl]
+  | .reduce x i r => by simp [eqS, eqEs_refl, eqE_refl]
+  | .writecfg c f r d => by simp [eqS, eqE_refl]
+  | .pass => by simp [eqS]
+  | .ite c t e => by simp [eqS, eqE_refl, eqSs_refl t, eqSs_refl e]
+  | .loop i lo hi b p => by simp [eqS, eqE_refl, eqSs_refl b]
+  | .alloc x sh => by simp [eqS, eqEs_refl]
+  | .free x => by simp [eqS]
+  | .call f a => by simp [eqS, eqP_refl f, eqEs_refl]
+  | .window x r => by simp [eqS, eqE_refl]
+theorem eqSs_refl : ∀ (a : List Stmt), eqSs a a = true
+  | [] => rfl
+  | a :: r => by simp [eqSs, eqS_refl a, eqSs_refl r]
+theorem eqP_refl : ∀ (a : Proc), eqP a a = true
+  | .mk n a p b => by simp [eqP, eqFnArgs_refl, eqEs_refl, eqSs_refl b]
+end
+
 /-! ### `ExEq` toolkit -/
 
 theorem exEq_ok_left {α} {r r' : Except Err α} {a : α} (h : ExEq r r') (hr : r = .ok a) :
